@@ -179,6 +179,9 @@ func ErrClass(err error) string {
 }
 
 func Exec(db *sql.DB, q string, args ...any) error {
+	if os.Getenv("SQLH_TRACE") != "" {
+		fmt.Fprintln(os.Stderr, "EXEC", q, args)
+	}
 	_, err := db.Exec(q, args...)
 	return err
 }
